@@ -36,7 +36,7 @@ type c09Case struct {
 	Diverges  bool         `json:"diverges"`
 }
 
-var baseOverhangs = []string{"GGAG", "TACT", "AATG", "AGGT", "GCTT", "CGCT"}
+var baseOverhangs = []string{"GGAG", "TACT", "AATG", "AGGT", "GCTT", "CGCT", "ATCC", "CAGA"}
 
 func overhangDNA(o, m int) string {
 	if o <= m {
